@@ -435,7 +435,7 @@ func vLoopRangeReadPair(txn *Txn, chunk commit.Chunk, limit commit.Chunk) {
 	vBody()
 }
 
-//@ lemma props=C04,C10,C18
+//@ lemma props=C04,C10,C18 real=column.(*Txn).rangeReadPair
 func vLemmaRangeReadPair(index []uint64, owner *Collection, col *column) {
 	vAssume(len(index) < 1<<30 && owner != nil && owner.slock != nil && col != nil && vNothingHeld())
 	txn := &Txn{index: index, owner: owner}
@@ -444,6 +444,7 @@ func vLemmaRangeReadPair(index []uint64, owner *Collection, col *column) {
 	txn.rangeReadPair(col, func(a, b bitmap.Bitmap) {
 		vAssert("latch-held", vLatchR[uint(vNext)%128] == 1 && vOtherW == 0)
 		vAssert("window", vSameSlice(a, commit.Chunk(vNext).OfBitmap(txn.index)))
+		vAssert("paired-with-the-column's-same-block", vLastIndexChunk == commit.Chunk(vNext) && vSameSlice(b, vLastIndexOf))
 		vNext++
 	})
 	vAssert("covers-all-blocks", vNext == uint32(len(index)>>bitmapShift)+1)
@@ -1354,5 +1355,309 @@ func vLemmaAscendHoldsLatch(owner *Collection, index []uint64, name string) {
 		vAssert("row-selected", int(idx>>6) < len(index) && vBit(index, idx))
 		vAssert("latch-of-row-block-held", vLatchR[uint(commit.ChunkAt(idx))%128] > 0)
 	})
+	vAssert("released", vNothingHeld())
+}
+
+// ---------------------------------------------------------------------------------------------
+// Txn.reset (C02, C15): every buffer goes back to the page pool exactly once, emptied; the update list, the column
+// cache and the dirty set are empty afterwards - and the dirty set's whole backing array is zero, which is what
+// bitmap.Set/grow rely on when they re-extend it without clearing (a stale bit there would make the next commit of
+// this pooled transaction visit, stamp and emit a block it never touched).
+
+//@ loop target=column.(*Txn).reset index=0 props=C02,C15
+func vLoopResetPages(txn *Txn, rangeindex int) {
+	vInvariant(-1 <= rangeindex && rangeindex < len(txn.updates) && vPoolPuts == rangeindex+1 && vNothingHeld())
+	vBody()
+}
+
+var vSpareZero bool // ghost: the bitmap being cleared has an all-zero spare capacity
+
+//@ loop target=bitmap.(*Bitmap).Clear index=0 props=C02,C15
+func vLoopBitmapClear(dst *bitmap.Bitmap, rangeindex int) {
+	vInvariant(-1 <= rangeindex && rangeindex < len(*dst) && vForall(0, rangeindex+1, func(i int) bool { return (*dst)[i] == 0 }))
+	// frame: the loop does not write beyond the length (the cut forgets the whole array otherwise)
+	vInvariant(!vSpareZero || vForall(len(*dst), cap(*dst), func(i int) bool { return (*dst)[:cap(*dst)][i] == 0 }))
+	vBody()
+}
+
+//@ lemma props=C02,C15 real=column.(*Txn).reset
+func vLemmaReset(owner *Collection, updates []*commit.Buffer, dirty []uint64, columns []columnCache) {
+	vAssume(owner != nil && owner.txns != nil && vNothingHeld() && len(updates) < 1<<20)
+	vAssume(vForall(0, len(updates), func(i int) bool { return updates[i] != nil }))
+	// data-structure invariant of a pooled transaction: beyond its length the dirty set's backing array is zero
+	whole := dirty[:cap(dirty)]
+	vAssume(vForall(len(dirty), len(whole), func(w int) bool { return whole[w] == 0 }))
+	txn := &Txn{owner: owner, updates: updates, dirty: dirty, columns: columns, reader: commit.NewReader()}
+	vPoolPuts, vSpareZero = 0, true
+	txn.reset()
+	vAssert("every-page-released-once", vPoolPuts == len(updates))
+	vAssert("updates-empty", len(txn.updates) == 0)
+	vAssert("column-cache-empty", len(txn.columns) == 0)
+	vAssert("dirty-empty", len(txn.dirty) == 0)
+	vAssert("dirty-backing-zero", vForall(0, len(whole), func(w int) bool { return whole[w] == 0 }))
+	vAssert("released", vNothingHeld())
+}
+
+// ---------------------------------------------------------------------------------------------
+// Growth (C01, C08, C13): commitCapacity - under the collection mutex - extends the per-block commit ids with zeros
+// WITHOUT touching the ids already stored (a snapshot stores them as the blocks' watermarks; Restore replays exactly
+// the logged commits with a larger id), extends the fill list to the end of the last block keeping its words, and
+// grows every registered column to the end of that block. chunks.Grow appends blocks of the full shape, which is the
+// shape precondition of every Apply/load lemma.
+
+var (
+	vGrowCalls  int
+	vGrowArg    uint32
+	vGrowMutex  bool
+	vOldCommits []uint64
+	vOldFill    []uint64
+)
+
+//@ contract target=column.(*column).Grow use verify=no
+func vContractColumnGrowGhost(c *column, idx uint32) {
+	c.Grow(idx)
+	vGrowCalls++
+	vGrowArg = idx
+	vGrowMutex = vColW
+}
+
+//@ loop target=column.(*Txn).commitCapacity index=0 props=C08,C13,C01
+func vLoopGrowCommits(txn *Txn, last commit.Chunk) {
+	vInvariant(vColW && vOtherW == 0 && vColR == 0 && vNoLatchHeld())
+	vInvariant(len(vOldCommits) <= len(txn.owner.commits) && len(txn.owner.commits) <= int(last)+1)
+	vInvariant(vForall(0, len(vOldCommits), func(k int) bool { return txn.owner.commits[k] == vOldCommits[k] }))
+	vInvariant(vForall(len(vOldCommits), len(txn.owner.commits), func(k int) bool { return txn.owner.commits[k] == 0 }))
+	// frame: the fill list is not written here (the cut forgets every []uint64 because the id list may be reallocated)
+	vInvariant(vDistinctBacking(txn.owner.fill, txn.owner.commits) && vDistinctBacking(vOldFill, txn.owner.commits))
+	vInvariant(len(txn.owner.fill) == len(vOldFill) && vForall(0, len(vOldFill), func(w int) bool { return txn.owner.fill[w] == vOldFill[w] }))
+	vBody()
+}
+
+//@ lemma props=C08,C13,C01 real=column.(*Txn).commitCapacity
+func vLemmaCommitCapacity(owner *Collection, last commit.Chunk) {
+	vAssume(owner != nil && vNothingHeld() && last < 1<<16 && len(owner.commits) < 1<<16 && len(owner.fill) <= 1<<25)
+	vAssume(vDistinctBacking(owner.fill, owner.commits))
+	vCol = owner
+	old := append([]uint64(nil), owner.commits...)
+	oldFill := append([]uint64(nil), owner.fill...)
+	vOldCommits, vOldFill = old, oldFill
+	vGrowCalls, vColumnsRangeCalls = 0, 0
+	txn := &Txn{owner: owner}
+	txn.commitCapacity(last)
+	vAssert("commits-cover", len(owner.commits) >= int(last)+1)
+	vAssert("commits-grow-only", len(owner.commits) >= len(old))
+	vAssert("stored-ids-kept", vForall(0, len(old), func(k int) bool { return owner.commits[k] == old[k] }))
+	vAssert("new-ids-zero", vForall(len(old), len(owner.commits), func(k int) bool { return owner.commits[k] == 0 }))
+	if len(old) < int(last)+1 {
+		vAssert("fill-covers-block", len(owner.fill) > int(last.Max()>>6))
+		vAssert("every-column-grown-to-block-end", vColumnsRangeCalls == 1 && vGrowCalls == 1 && vGrowArg == last.Max() && vGrowMutex)
+	}
+	vAssert("fill-grows-only", len(owner.fill) >= len(oldFill))
+	vAssert("fill-words-kept", vForall(0, len(oldFill), func(w int) bool { return owner.fill[w] == oldFill[w] }))
+	vAssert("released", vNothingHeld())
+}
+
+//@ loop target=column.(*chunks[int64]).Grow[int64] index=0 props=C01
+func vLoopChunksGrow(s *chunks[int64], i int, chunk int) {
+	vInvariant(vOldChunks <= len(*s) && len(*s) < 1<<20 && (i == len(*s)) && len(*s) <= vMaxInt(vOldChunks, chunk+1))
+	vInvariant(vForall(vOldChunks, len(*s), func(k int) bool { return len((*s)[k].fill) == chunkSize/64 && len((*s)[k].data) == chunkSize }))
+	vBody()
+}
+
+var vOldChunks int
+
+func vMaxInt(a, b int) int {
+	if a > b {
+		return a
+	}
+	return b
+}
+
+//@ lemma props=C01
+func vLemmaChunksGrow(chs chunks[int64], idx uint32) {
+	vAssume(len(chs) < 1<<17)
+	vOldChunks = len(chs)
+	s := chs
+	s.Grow(idx)
+	vAssert("covers-block-of-offset", len(s) > int(commit.ChunkAt(idx)))
+	vAssert("new-blocks-have-full-shape", vForall(len(chs), len(s), func(k int) bool { return len(s[k].fill) == chunkSize/64 && len(s[k].data) == chunkSize }))
+}
+
+// ---------------------------------------------------------------------------------------------
+// Collection.chunks (C07, C08): the number of blocks a snapshot writes covers every occupied offset of the fill list
+// (occupied, not counted: deletions in early blocks must not cut off the last blocks), read under the collection mutex.
+
+//@ lemma props=C07,C08
+func vLemmaChunks(owner *Collection) {
+	vAssume(owner != nil && vNothingHeld() && len(owner.fill) <= 1<<25)
+	vCol = owner
+	n := owner.chunks()
+	idx := vNondet[uint32]() // an arbitrary offset
+	if int(idx>>6) < len(owner.fill) && vBit(owner.fill, idx) {
+		vAssert("covers-every-occupied-offset", int(commit.ChunkAt(idx)) < n)
+	}
+	vAssert("no-more-than-the-fill-list-spans", n <= (len(owner.fill)*64+chunkSize-1)/chunkSize)
+	vAssert("released", vNothingHeld())
+}
+
+// ---------------------------------------------------------------------------------------------
+// One operation through an enum column (C01, C11): a put sets the presence bit of the row's cell and stores the
+// location the value was interned at (that the location holds the value is D6's clause); a delete clears the
+// presence bit of exactly that cell - in whichever block the row lives; other kinds and other cells are untouched.
+
+//@ lemma props=C01,C11 mode=paths
+func vLemmaApplyEnum(chs chunks[uint32], names []string, chunk commit.Chunk, buf []byte, last int32, cur commit.Chunk, s int, sel uint8, idx uint32, v0 []byte, n uint16) {
+	vAssume(int(chunk) < len(chs) && len(chs[chunk].fill) == chunkSize/64 && len(chs[chunk].data) == chunkSize)
+	vAssume(idx < 1<<31 && commit.ChunkAt(idx) == chunk && last >= 0 && 0 <= s && s <= len(buf) && sel <= 4 && vShortDelta(last, idx, cur, chunk))
+	vAssume(int(n) <= len(v0) && len(buf) < 1<<30 && commit.VSeparate(buf, v0) && len(names) < 1<<20 && vIntmap != nil)
+	v := v0[:n]
+	col := &columnEnum{chunks: chs, data: names, seek: new(intmap.Sync)}
+	fill, locs := chs[chunk].fill, chs[chunk].data
+	o := idx - chunk.Min()
+	oldFill := append([]uint64(nil), fill...)
+	oldLocs := append([]uint32(nil), locs...)
+	b := commit.VBuffer(buf, last, cur)
+	oldLen := len(buf)
+	switch sel {
+	case 0:
+		b.PutBytes(commit.Put, idx, v)
+	case 1:
+		b.PutOperation(commit.Delete, idx)
+	case 2:
+		b.PutBytes(commit.Merge, idx, v)
+	case 3:
+		b.PutOperation(commit.Insert, idx)
+	default:
+		b.PutBytes(commit.Skip, idx, v)
+	}
+	r := commit.VReaderAt(b, s, oldLen, last)
+	col.Apply(chunk, r)
+	vAssert("consumed", commit.VAtEnd(r))
+	switch sel {
+	case 0:
+		vAssert("put", vBit(fill, o) && locs[o] == vIntmapLast)
+	case 1:
+		vAssert("delete", !vBit(fill, o))
+	default:
+		vAssert("other-op", vBit(fill, o) == vBit(oldFill, o) && locs[o] == oldLocs[o])
+	}
+	vAssert("frame-fill", vFrameFill(fill, oldFill, o))
+	vAssert("frame-locations", vForall(0, chunkSize, func(j int) bool { return uint32(j) == o || locs[j] == oldLocs[j] }))
+}
+
+// ---------------------------------------------------------------------------------------------
+// Filter chains (C04). rangeReadPair hands the per-block delegate the window of the selection and the same block of
+// the index (vLemmaRangeReadPair). The delegates of With / Without / Union then compute, word by word on the window,
+// AND / AND NOT / (AND for the index that starts a fresh query, OR otherwise); and Union keeps treating an index as
+// "the first" for ALL its blocks, never for a later index, and a missing name as the empty set (★D21).
+
+func vWordsAfter(op uint8, dst, old, src []uint64) bool {
+	return vForall(0, len(dst), func(w int) bool {
+		s := uint64(0)
+		if w < len(src) {
+			s = src[w]
+		}
+		switch op {
+		case 1:
+			return dst[w] == old[w]&s
+		case 2:
+			return dst[w] == old[w]&^s
+		}
+		return dst[w] == old[w]|s
+	})
+}
+
+//@ lemma props=C04
+func vLemmaFilterSteps(dst, src []uint64, first bool) {
+	vAssume(len(dst) <= chunkSize/64 && len(src) <= chunkSize/64 && vDistinctBacking(dst, src))
+	old := append([]uint64(nil), dst...)
+	vCallAnon("column.(*Txn).With$1", []any{}, bitmap.Bitmap(dst), bitmap.Bitmap(src))
+	vAssert("with-is-intersection", vWordsAfter(1, dst, old, src))
+	old2 := append([]uint64(nil), dst...)
+	vCallAnon("column.(*Txn).Without$1", []any{}, bitmap.Bitmap(dst), bitmap.Bitmap(src))
+	vAssert("without-is-difference", vWordsAfter(2, dst, old2, src))
+	old3 := append([]uint64(nil), dst...)
+	f := first
+	vCallAnon("column.(*Txn).Union$1", []any{"first", &f}, bitmap.Bitmap(dst), bitmap.Bitmap(src))
+	if first {
+		vAssert("union-first-is-intersection-with-all-rows", vWordsAfter(1, dst, old3, src))
+	} else {
+		vAssert("union-later-is-union", vWordsAfter(3, dst, old3, src))
+	}
+	vAssert("union-step-keeps-the-flag", f == first)
+}
+
+// For the function-level clauses rangeReadPair is replaced by: the delegate runs for two arbitrary blocks.
+var (
+	vPairOps [8]uint8
+	vPairN   int
+)
+
+//@ contract target=column.(*Txn).rangeReadPair use verify=no
+func vContractRangeReadPairTwoBlocks(txn *Txn, column *column, f func(a, b bitmap.Bitmap)) {
+	txn.rangeReadPair(column, f)
+	vPairBlock(f, 0)
+	vPairBlock(f, 1)
+}
+
+// the operation the delegate performs for block k of the name looked up last is recorded at [2*(position of the name)+k]
+func vPairBlock(f func(a, b bitmap.Bitmap), k int) {
+	d, s := vNondet[bitmap.Bitmap](), vNondet[bitmap.Bitmap]()
+	vAssume(len(d) == 0 && len(s) == 0) // which operation runs is observed here; what it computes on a window: vLemmaFilterSteps
+	vLastBitOp = 0
+	f(d, s)
+	vAssume(1 <= vColumnAtN && vColumnAtN <= 4)
+	vPairOps[2*(vColumnAtN-1)+k] = vLastBitOp
+	vPairN++
+}
+
+var (
+	vColumnAtN     int
+	vColumnAtFound [4]bool
+)
+
+//@ contract target=column.(*Txn).columnAt use verify=no
+func vContractColumnAtGhost(txn *Txn, columnName string) (col *column, ok bool) {
+	col, ok = txn.columnAt(columnName)
+	vEnsures("found-is-non-nil", !ok || col != nil)
+	if vColumnAtN < 4 {
+		vColumnAtFound[vColumnAtN] = ok
+	}
+	vColumnAtN++
+	return
+}
+
+//@ lemma props=C04
+func vLemmaUnion(owner *Collection, setup bool, index []uint64, a, b string) {
+	vAssume(owner != nil && vNothingHeld() && len(index) <= 1<<25)
+	vCol = owner
+	txn := &Txn{owner: owner, setup: setup, index: index}
+	vPairN, vColumnAtN = 0, 0
+	txn.Union(a, b)
+	fa, fb := vColumnAtFound[0], vColumnAtFound[1]
+	vAssert("each-name-looked-up-once", vColumnAtN == 2)
+	n := 0
+	if fa {
+		// the first index of a fresh query narrows the live rows (AND) in EVERY block; otherwise it is OR-ed in
+		want := uint8(3)
+		if !setup {
+			want = 1
+		}
+		vAssert("first-index:same-operation-in-every-block", vPairOps[0] == want && vPairOps[1] == want)
+		n += 2
+	}
+	if fb {
+		want := uint8(3)
+		if !setup && !fa {
+			want = 1 // a missing name is the empty set: the first EXISTING index starts the union
+		}
+		vAssert("second-index", vPairOps[2] == want && vPairOps[3] == want)
+		n += 2
+	}
+	vAssert("one-pass-per-existing-index", vPairN == n)
+	if !setup && !fa && !fb {
+		vAssert("fresh-union-of-missing-names-selects-nothing", len(txn.index) == 0)
+	}
+	vAssert("setup", txn.setup)
 	vAssert("released", vNothingHeld())
 }
